@@ -341,6 +341,97 @@ def gramService (v : Version) (entry : GramEntry) (q : List Pkt) (script : List 
   | .txPkts | .allTx | .all => gramLoop v q script [] [] []
   | .txPktsOnce | .allTxOnce => gramOnce v q script
 
+/-- the `sendto` answers left over after one pass (an answer is consumed by every call, also by the one
+that raises) -/
+def gramLoopRest (v : Version) : List Pkt → List (Option Err) → List Nat → List (Option Err)
+  | [], sc, _ => sc
+  | p :: rest, sc, bl =>
+    match gramOne v p sc [] [] bl with
+    | some (_, _, bl', sc') => gramLoopRest v rest sc' bl'
+    | none => sc.tail
+
+def gramRest (v : Version) (entry : GramEntry) (q : List Pkt) (script : List (Option Err)) : List (Option Err) :=
+  match entry with
+  | .txPkts | .allTx | .all => gramLoopRest v q script []
+  | .txPktsOnce | .allTxOnce =>
+    match q with
+    | [] => script
+    | p :: _ =>
+      match gramOne v p script [] [] [] with
+      | some (_, _, _, sc') => sc'
+      | none => script.tail
+
+def GramRes.queue : GramRes → List Pkt
+  | .ok _ q => q
+  | .raised _ q => q
+
+def GramRes.sent : GramRes → List Pkt
+  | .ok s _ => s
+  | .raised s _ => s
+
+def GramRes.isOk : GramRes → Bool
+  | .ok _ _ => true
+  | .raised _ _ => false
+
+/-- several service passes on one stack: `laters` and `blockeds` are locals of each pass, so every pass starts
+with no destination blocked; the queue and the remaining answers carry over.  Each result comes with the
+number of answers that were still scripted when the pass began (0 = every `sendto` of this pass succeeds). -/
+def gramPasses (v : Version) : List GramEntry → List Pkt → List (Option Err) → List (GramRes × Nat)
+  | [], _, _ => []
+  | en :: rest, q, sc =>
+    (gramService v en q sc, sc.length) ::
+      gramPasses v rest (gramService v en q sc).queue (gramRest v en q sc)
+
+/-! ### a stream client through close / re-open cycles
+
+`Client` / `ClientTls`: `close()` (= `shutclose`) drops `.cs`; `reopen()` + `connect()` bring a new socket.
+Every `receive` / `send` must go to the socket that is current, with the ladder of its class applied to that
+socket's answer.  Sockets are numbered in the order they are opened. -/
+
+inductive SessOp
+  | io (isSend : Bool) (ans : Option Err)    -- `receive()` / `send(data)`; `ans` = what the current socket answers
+  | close
+  | reopen
+  deriving Repr
+
+inductive SessOut
+  | done (sock : Nat)                         -- the call went to socket `sock` and returned data / a count
+  | classified (sock : Nat) (r : Ret) (cutoff : Bool)   -- … and failed there: the ladder's outcome
+  | noSocket                                  -- `.cs` is None: AttributeError
+  | closed
+  | opened (sock : Nat)
+  deriving DecidableEq, Repr
+
+structure Sess where
+  tls : Bool
+  cur : Option Nat := none
+  next : Nat := 0
+  cutoff : Bool := false
+  deriving Repr
+
+def sessSite (tls isSend : Bool) : Site :=
+  match tls, isSend with
+  | false, false => .clientRecv | false, true => .clientSend
+  | true, false => .clientTlsRecv | true, true => .clientTlsSend
+
+def sessStep (v : Version) (s : Sess) : SessOp → Sess × SessOut
+  | .io isSend ans =>
+    match s.cur with
+    | none => (s, .noSocket)
+    | some k =>
+      match ans with
+      | none => (s, .done k)
+      | some e =>
+        let r := effect v (sessSite s.tls isSend) ⟨s.cutoff, true⟩ e
+        ({ s with cutoff := r.1.cutoff }, .classified k r.2 r.1.cutoff)
+  | .close => ({ s with cur := none }, .closed)
+  -- `open()`: `self.cutoff = False`, a new socket
+  | .reopen => ({ s with cur := some s.next, next := s.next + 1, cutoff := false }, .opened s.next)
+
+def sessRun (v : Version) (s : Sess) : List SessOp → List SessOut
+  | [] => []
+  | op :: ops => (sessStep v s op).2 :: sessRun v (sessStep v s op).1 ops
+
 /-! ### `Client.accept`: `connect_ex` returns a code instead of raising -/
 
 inductive Connect
